@@ -298,16 +298,24 @@ func checkC11(c c11Case) (ci caseInfo, err error) {
 				continue
 			}
 			h := *op.Hdr
-			sys := append([]byte(nil), h.System...)
+			// the caller's slice may be longer than the four bytes that are used (the tail of a receive buffer, say)
+			sys := append(append([]byte(nil), h.System...), op.Sys...)
 			var m *ast.DataMessage
-			if op.Kind == "hsmsmsg" && len(p.item.Variables()) == 0 && h.Wait != 2 && h.Session != -1 {
-				m = ast.NewHSMSDataMessage(h.Name, h.Stream, h.Function, h.Wait, h.Dir, p.item, h.Session, sys)
-			} else {
-				m = ast.NewDataMessage(h.Name, h.Stream, h.Function, h.Wait, h.Dir, p.item)
-				if h.Session != -1 {
-					enter(&pooled{msg: m, model: p.model, from: "NewDataMessage"})
-					m = m.SetSessionIDAndSystemBytes(h.Session, sys)
+			if pn, _ := try(func() {
+				if op.Kind == "hsmsmsg" && len(p.item.Variables()) == 0 && h.Wait != 2 && h.Session != -1 {
+					m = ast.NewHSMSDataMessage(h.Name, h.Stream, h.Function, h.Wait, h.Dir, p.item, h.Session, sys)
+				} else {
+					m = ast.NewDataMessage(h.Name, h.Stream, h.Function, h.Wait, h.Dir, p.item)
+					if h.Session != -1 {
+						enter(&pooled{msg: m, model: p.model, from: "NewDataMessage"})
+						m = m.SetSessionIDAndSystemBytes(h.Session, sys)
+					}
 				}
+			}); pn || m == nil {
+				if len(op.Sys) == 0 {
+					return ci, fmt.Errorf("message constructor refused a well-formed header %+v", h)
+				}
+				continue
 			}
 			derivations++
 			enter(&pooled{msg: m, model: p.model, from: op.Kind})
@@ -399,6 +407,9 @@ func checkC11(c c11Case) (ci caseInfo, err error) {
 			var m ast.HSMSMessage
 			switch op.C % 6 {
 			case 0:
+				if op.B%4 == 3 {
+					hdr = hdr[:10-op.B%8] // a shorter header slice: still copied, never kept
+				}
 				m = ast.NewHSMSControlMessage(hdr)
 				enter(&pooled{ctrl: m, from: "NewHSMSControlMessage"})
 				writes += scribbleBytes(hdr)
@@ -472,6 +483,9 @@ func genC11(t *rapid.T) c11Case {
 		case "newmsg", "hsmsmsg":
 			h := genHdr(t, op.Kind == "hsmsmsg")
 			op.Hdr = &h
+			if rapid.IntRange(0, 3).Draw(t, "longSys") == 3 {
+				op.Sys = rapid.SliceOfN(rapid.Byte(), 1, 4).Draw(t, "sysTail")
+			}
 		case "setsession", "ctrl":
 			op.Sys = rapid.SliceOfN(rapid.Byte(), 0, 6).Draw(t, "sys")
 		}
